@@ -18,11 +18,13 @@ import common
 
 
 class GrpcClient:
-    def __init__(self, addr, logdir, name="grpcc"):
+    def __init__(self, addr, logdir, name="grpcc", env_extra=None):
         self.addr = addr
         self.errf = open(os.path.join(logdir, name + ".err.log"), "ab")
         env = dict(os.environ)
         env.setdefault("RUST_LOG", "off")
+        if env_extra:
+            env.update(env_extra)
         self.p = subprocess.Popen([common.VH, "grpc-client", "--addr", addr], stdin=subprocess.PIPE, stdout=subprocess.PIPE,
                                   stderr=self.errf, env=env)
         self.cv = threading.Condition()
